@@ -15,7 +15,8 @@ EXPLANATION = (
     "Path rules: handle_read truncates the receive buffer (created with MAX_MSG_ABSOLUTE bytes) to the size recv returned "
     "before decoding; in the record loop the cursor equals RDATA start + RDLENGTH at every back edge and RDLENGTH is "
     "checked against the datagram before any RDATA read."
-    " Memory: every explicit reservation in that scope (with_capacity / reserve / vec![x; n] / resize / repeat) asks for at most 4*len(a sequence already held)+64 elements or a constant <= 9000 — never for a count merely read from the header.")
+    " Memory: every explicit reservation in that scope (with_capacity / reserve / vec![x; n] / resize / repeat) asks for at most 4*len(a sequence already held)+64 elements or a constant <= 9000 — never for a count merely read from the header."
+    " (f) No length-changing string function (to_lowercase / to_uppercase / replace) is applied anywhere in the decoder's scope: names are handed on as read.")
 UNDECIDED = ["time and memory *linear* in the datagram size (the ranking gives a quadratic bound only)",
              "the bound on the decoded name's length", "that decoded values equal the bytes (round trip: C02)"]
 ASSUMPTIONS = ["allocation failure is out of scope", "std functions behave as documented (library model table in mdnsverif/libmodel.py)",
@@ -200,6 +201,8 @@ def clause_e(ctx, P, A):
 
 
 def run(ctx, P):
+    from . import r4
+    r4.decoded_names_are_verbatim(ctx, P, "C01f")
     R = P      # (P.raw is the program as extracted; the numeric engine also runs on the normalised one)
     R.repo = P.repo
     A, sc = clause_abc(ctx, R)
